@@ -11,8 +11,8 @@ RULE = ('random circuits x stimuli; every case compares a reference configuratio
         'kernels, lane permutation, c_prop(sims=k), larger allocation, delay data-set selection modes 0 (seed) and 1 (per simulation) vs simulating with '
         'that data set alone. A fork-stripping difference is classified as known finding D13 iff the un-stripped run contains a stem waveform that is '
         'not strictly increasing on the differing lane. wave-strip cases additionally evaluate the hypotheses of the theorems '
-        'KV.C06.strip_equiv / strip_equiv_polind on the real pair of runs (certificate stripOkB and stripOps = real stripped rows '
-        'through the Lean driver; zero delay on fork inputs, capacities, polarity independence, monotone stems numerically) and, '
+        'KV.C06.strip_equiv / strip_equiv_polind / strip_equiv_all_circuits on the real pair of runs (certificate stripOkB and stripOps = real '
+        'stripped rows through the Lean driver; Net.wfB, orderOKB, forksOKB of the real circuit and order, model stemList = real branch->stem map; zero delay on fork inputs, capacities, polarity independence, monotone stems numerically) and, '
         'on every lane where they hold, require equal waveforms on every non-branch signal and branch(un-stripped) = stem(stripped). '
         'distinct = (circuit, clause, seeds)')
 
@@ -49,9 +49,14 @@ def logic_run(c, m, stim, sims_alloc, strip, reuse):
     return logic.bp_to_mv(ls.s[1])[:, :stim.shape[1]]
 
 
-def wave_run(c, delays, sims_alloc, i, t, f, caps, strip=False, reuse=False, cuda=False, k=None, mode=None, seed=1, simctl0=None, multi_seed=None):
+def wave_run(c, delays, sims_alloc, i, t, f, caps, strip=False, reuse=False, cuda=False, k=None, mode=None, seed=1, simctl0=None, multi_seed=None, warm=()):
     ws = wc.make_sim(c, delays, sims_alloc, c_caps=caps, strip=strip, reuse=reuse, cuda=cuda)
     n = i.shape[1]
+    for (i2, t2, f2) in warm:      # earlier simulations on the same object (same history on both code paths)
+        ws.s[0, :, :n] = i2; ws.s[1, :, :n] = t2; ws.s[2, :, :n] = f2
+        ws.s_to_c()
+        with common.quiet():
+            ws.c_prop(); ws.c_to_s()
     ws.s[0, :, :n] = i; ws.s[1, :, :n] = t; ws.s[2, :, :n] = f
     ws.s_to_c()
     if multi_seed is not None:
@@ -136,6 +141,17 @@ def strip_theorem(case):
     if not cert:
         res['broken'].append(('stripOkB / stripOps on the real op rows', f'{ans} st={st_s} un={rows_un[:400]} sp={rows_sp[:400]}'))
     res['tags'].append('strip-cert:' + ('ok' if cert else 'FAIL'))
+    # hypotheses of KV.C06.genOps_strip_link / strip_equiv_all_circuits on the REAL circuit and the REAL topological order, and
+    # the model's branch -> stem list (`stemList` = the `stems` array of the SimOps model) against the real one (read off c_locs)
+    try:
+        order = ','.join(str(n.index) for n in c.topological_order())
+        ans2 = common.run_driver([f'net {circ.dump_net(c)}', f'netcert {order}', f'forkcert {order}'])[1:]
+    except Exception as ex:
+        ans2 = [f'{type(ex).__name__}: {ex}'[:200], '']
+    want2 = ['wf=true order=true', 'forks=true stems=' + ','.join(f'{b}:{s}' for b, s in sorted(st.items()))]
+    if ans2 != want2:
+        res['broken'].append(('Net.wfB / orderOKB / forksOKB on the real circuit, stemList = real branch->stem map', f'{ans2} != {want2}'))
+    res['tags'].append('strip-netcert:' + ('ok' if ans2 == want2 else 'FAIL'))
     res['tags'].append('strip-forkrows:' + ('0' if not st else '1-3' if len(st) <= 3 else '4+'))
     # numeric hypotheses shared by both theorems
     dd = np.array(un.delays)[0]
@@ -242,8 +258,11 @@ def eval_case(case):
         got = wave_run(c, d0, sims, i, t, f, case['caps'], strip=True, reuse=case['reuse'])
         exp = ref
     elif cl == 'wave-gpu':
-        got = wave_run(c, d0, sims, i, t, f, case['caps'], strip=case['strip'], reuse=case['reuse'], cuda=True, multi_seed=case['sseed'])
-        exp = wave_run(c, d0, sims, i, t, f, case['caps'], strip=case['strip'], reuse=case['reuse'], multi_seed=case['sseed'])
+        wrng = random.Random(case['sseed'] + 3)
+        warm = [wc.rand_stim(wrng, i.shape[0], sims) for _ in range(wrng.choice([0, 1]))]
+        ms = case['sseed'] if wrng.random() < 0.5 else None
+        got = wave_run(c, d0, sims, i, t, f, case['caps'], strip=case['strip'], reuse=case['reuse'], cuda=True, multi_seed=ms, warm=warm)
+        exp = wave_run(c, d0, sims, i, t, f, case['caps'], strip=case['strip'], reuse=case['reuse'], multi_seed=ms, warm=warm)
         if not np.array_equal(np.array(got.c), np.array(exp.c)):
             return False, {'clause': cl, 'differs': 'signal memory c'}, {'equal': 'CPU path'}
     elif cl == 'wave-lanes':
